@@ -632,6 +632,7 @@ package tabular
 //@   ensures [items-in-order] forall k int :: {items[k]} 0 <= k && k < len(items) ==> t.headerRow.cells[k].raw === items[k] @C02
 //@   ensures [rows-unchanged] t.rows === old(t.rows) && forall i int :: {t.rows[i]} {old(t.rows[i])} 0 <= i && i < len(t.rows) ==> t.rows[i] == old(t.rows[i]) @C02
 //@   ensures [columns-follow] t.nColumns == max(old(t.nColumns), len(items)) @C02
+//@   ensures [column-count-attained-after-header-replacement] old(t.headerRow) != nil && old(len(t.rows)) == 0 ==> t.nColumns == len(items) @C02
 //@   ensures [returns-table] result == mkiface(type[*ATable], box(t))
 //@   loop#1 invariant -1 <= rangeindex && rangeindex < len(items)
 //@   loop#1 invariant hr != nil && fresh(hr) && !hr.isSeparator && hr.cells != nil && hr.inTable == nil && cellsOK(hr) && rowProps(hr) && cellsOwn(hr) && fresh(hr.cells) && len(hr.cells) == rangeindex + 1 && hr.ErrorContainer == t.ErrorContainer
